@@ -369,14 +369,20 @@ def judge_stream(run, name, imports, casetype, inputs, results, term_fn, clauses
     run.oblige("%s: case evaluation inside Coq completed" % name, not errors, "\n".join(errors))
     mism = [f for f in flagged if f[1] == 1]
     viol = [f for f in flagged if f[1] == 2]
-    for idx, sev, cl in viol[:20]:
+    knownkeys = {k["key"] for k in known_findings()["known"] if k["property"] == run.pid}
+    kept = []
+    for idx, sev, cl in viol:
         k = (vkey(inputs[idx], results[idx], cl) if vkey else None) or "%s-clause-%d" % (name, cl)
+        if k not in knownkeys:
+            kept.append((idx, sev, cl))
+        if len(kept) > 20 and k not in knownkeys:
+            continue
         run.violation(k, clauses.get(cl, "clause %d" % cl),
                       {"stream": name, "input": _short(inputs[idx], 6000), "impl": _short(results[idx], 6000), "clause": cl})
-    run.oblige("correspondence %s: model = implementation and monitor holds on %d cases" % (name, len(inputs)),
-               not mism and not viol and not errors,
+    run.oblige("correspondence %s: model = implementation and monitor holds on %d cases (listed known findings excepted)" % (name, len(inputs)),
+               not mism and not kept and not errors,
                json.dumps([{"clause": clauses.get(c, c), "input": _short(inputs[i], 1500), "impl": _short(results[i], 1500)}
-                           for i, s, c in (viol + mism)[:5]], default=str)[:8000])
+                           for i, s, c in (kept + mism)[:5]], default=str)[:8000])
     seen, nontriv, dist = set(), 0, {}
     for i, t in zip(inputs, tags):
         dist[str(t)] = dist.get(str(t), 0) + 1
